@@ -2,6 +2,7 @@ package main
 
 import (
 	"fmt"
+	"os"
 	"go/ast"
 	"go/token"
 	"go/types"
@@ -230,7 +231,7 @@ func (e *Engine) bmcSearch(r *FnResult, prop, repoDir string, kinds map[string]b
 		}
 		tried := 0
 		for _, o := range br.Obls {
-			if !(o.Prop == prop || prop == "") || !kinds[o.Kind] {
+			if !(o.Prop == prop || prop == "") || !kinds[o.Kind] || e.knownObl[o.Name] {
 				continue
 			}
 			smt := e.smtFile(br.Ctx, o, true)
@@ -243,6 +244,9 @@ func (e *Engine) bmcSearch(r *FnResult, prop, repoDir string, kinds map[string]b
 			o.Status, o.Detail, o.Solver = "failed", "sat", "z3-new"
 			rf := e.buildReplay(br, o, smt)
 			if rf.TestSource == "" {
+				if os.Getenv("VERIF_DEBUG") != "" {
+					fmt.Fprintf(os.Stderr, "bmc: %s: no replay: %s\n", o.Name, rf.Note)
+				}
 				continue
 			}
 			tried++
